@@ -2,7 +2,8 @@
    fuel the models give them: every loop step consumes at least one byte of the buffer.  Holds for
    every buffer (whole lines or not), every reply function, every matcher (the multi-line loop
    needs the find_at contract  at <= start <= end <= len). *)
-From RG Require Import Base.Bytes Base.BytesFacts Model.Lines Model.SearcherCore Model.Glue Proofs.PrefixLaw Proofs.PrefixCore.
+From RG Require Import Base.Bytes Base.BytesFacts Model.Lines Model.SearcherCore Model.Glue Proofs.PrefixLaw Proofs.PrefixCore
+  Proofs.MLInvExt.
 
 Lemma find_index_lt {A} (f : A -> bool) l i : find_index f l = Some i -> i < length l.
 Proof. intro H. apply find_index_some in H. tauto. Qed.
@@ -299,6 +300,25 @@ Section ML.
     - cbn [ml_step_ok' ml_core ml_inv ml_last]. rewrite Hc3. split; [exact Hn|exact Hl].
   Qed.
 
+  (* the inner loop of sink_matched_inverted: every round moves the position forward *)
+  Lemma ext_pos_ok s : forall f p le, le <= length s -> length s - p < f ->
+    exists q le', ml_ext_pos cfg M s f p le = Some (q, le') /\ le <= le' /\ le' <= length s.
+  Proof.
+    induction f as [|f IH]; intros p le Hle Hf; [lia|]. cbn [ml_ext_pos].
+    destruct (Nat.ltb_spec p le) as [Hp|Hp]; [|exists p, le; auto].
+    destruct (m_find_at M s p) as [[a b]|] eqn:Ef; [|exists p, le; auto].
+    destruct (Hfa s p a b Ef) as (H1 & H2 & H3).
+    destruct (Nat.ltb_spec a le) as [Ha|Ha]; [|exists p, le; auto].
+    pose proof (locate_end_le (lt_byte (c_lt cfg)) s a b H3) as Hnle.
+    destruct (locate (lt_byte (c_lt cfg)) s a b) as [nls nle]. cbn [snd] in Hnle.
+    assert (Hq : p < adv_pos s a b \/ length s <= adv_pos s a b).
+    { unfold adv_pos. destruct (Nat.leb_spec b a); destruct (Nat.ltb_spec b (length s)); cbn [andb]; lia. }
+    destruct (IH (adv_pos s a b) (if Nat.ltb le nle then nle else le)) as (q & le' & E & L1 & L2).
+    - destruct (Nat.ltb_spec le nle); lia.
+    - lia.
+    - exists q, le'. split; [exact E|]. destruct (Nat.ltb_spec le nle); lia.
+  Qed.
+
   Lemma ml_sink_ok (m : ml) (s : bytes) :
     pos (ml_core m) < length s -> ml_inv s m -> ml_step_ok' s (pos (ml_core m)) (ml_sink cfg M r m s).
   Proof.
@@ -313,10 +333,11 @@ Section ML.
         pose proof (locate_end_le (lt_byte (c_lt cfg)) s a b H3) as Hle.
         pose proof (locate_start_le (lt_byte (c_lt cfg)) s a b ltac:(lia)) as Hls.
         destruct (locate (lt_byte (c_lt cfg)) s a b) as [ls le]. cbn [fst snd] in *.
-        assert (Hadv : p < pos (ml_advance c s ls le) \/ length s <= pos (ml_advance c s ls le)).
-        { unfold ml_advance. cbn [pos set_pos].
-          destruct (Nat.leb_spec le ls); cbn [andb]; [destruct (Nat.ltb_spec le (length s))|]; cbn [pos set_pos]; lia. }
-        remember (ml_advance c s ls le) as c1 eqn:Ec1.
+        rewrite ml_inv_extend_eq.
+        destruct (ext_pos_ok s (S (length s)) (pos (ml_advance c s a b)) le Hle ltac:(lia)) as (q & le' & Eext & L1 & L2).
+        rewrite Eext.
+        remember (set_pos (set_pos (ml_advance c s a b) q) le') as c1 eqn:Ec1.
+        assert (Hadv : p < pos c1 \/ length s <= pos c1) by (rewrite Ec1; cbn [pos set_pos]; lia).
         destruct (Nat.leb ls p); [cbn [ml_step_ok' ml_core ml_inv ml_last]; split; [exact Hadv|exact Hinv]|].
         apply (ml_lift_ok' s p (pos c1)); [apply keeps_ml_sink_context; [reflexivity|lia]|exact Hadv|exact Hinv|].
         intros c2 Hc2.
